@@ -551,7 +551,10 @@ impl EdgeLocate for ConvergeTangentEdge {
             .length_along();
 
         let steps = 1000;
-        let x_start = 0.0;
+        // The sweep covers the last two c0 diameters of the camber line only: further back the
+        // camber direction has nothing to do with the edge, and a sample there that happens to
+        // pass the tolerance would make the stations between it and the edge be discarded
+        let x_start = (x0 - 4.0 * c0.r()).max(0.0);
         let space = linear_space(x_start, oriented_camber.length() - 1.0e-6, steps);
         let mut measured = Vec::new();
 
